@@ -36,13 +36,35 @@ class TwoArg(LookupError):
         self.a, self.b = a, b
 
 
+from tatsu.parproc.payload import VisualPayload  # noqa: E402  (the tree under test: PYTHONPATH)
+
+
+class VPayload(VisualPayload):
+    """A VisualPayload (the payload class of TatSu's own tools, for which taskproc() retries a TypeError with the payload's path)."""
+
+    def raises(self):
+        return self._raises
+
+    def __repr__(self):
+        return f'VPayload({self.tid})'
+
+
+def visual_payload(tid, raises_decl=()):
+    from pathlib import Path
+    p = VPayload(Path(f'p{tid}'), tid)
+    p.tid, p._raises = tid, tuple(raises_decl)
+    return p
+
+
 def _work(payload, raising, delays, exc_kind='plain'):
-    d = delays.get(payload.tid, 0)
+    d = delays.get(payload.tid, 0)        # (called with a path - the retry of taskproc() - this is an AttributeError: still one exception result)
     if d:
         time.sleep(d / 1000.0)
     if payload.tid in raising:
         if exc_kind == 'twoarg':
             raise TwoArg(payload.tid, 'boom')
+        if exc_kind == 'typeerror':
+            raise TypeError('unsupported operand type(s) for +: int and str (payload %d)' % payload.tid)    # a genuine, data-dependent TypeError
         raise (KeyError if payload.tid % 2 == 0 else ZeroDivisionError)('boom %d' % payload.tid)
     return payload.tid * 10
 
@@ -86,7 +108,8 @@ def record_run(case):
         return gen()
 
     # declared exception classes: even payloads declare the superclass of what they raise, odd ones declare nothing
-    payloads = [Payload(t, (LookupError,) if t % 2 == 0 else ()) for t in range(1, n + 1)]
+    mk = visual_payload if case.get('payload_kind') == 'visual' else Payload
+    payloads = [mk(t, (LookupError,) if t % 2 == 0 else ()) for t in range(1, n + 1)]
     saved = (pmap_mod.HAS_MULTITHREADING_SUPPORT, pp_mod.HAS_MULTITHREADING_SUPPORT)
     cf.ProcessPoolExecutor, cf.ThreadPoolExecutor, pmap_mod.as_completed = RecProcessPool, RecThreadPool, rec_as_completed
     if branch == 'thread':
@@ -94,6 +117,10 @@ def record_run(case):
     err = None
     try:
         try:
+            if case.get('prelude') == 'typeerror':
+                # an earlier, complete run in this interpreter (sequential, not recorded) in which the function raised a TypeError for one
+                # visual payload
+                list(parproc(_work, [visual_payload(50 + t) for t in range(1, 4)], {52}, {}, 'typeerror', parallel=False))
             source = (p for p in payloads) if case.get('iterable') == 'generator' else payloads     # any iterable of payloads
             kw = {'parallel': branch != 'seq', 'max_workers': case['workers']}
             if case.get('entry') == 'legacy':
